@@ -5,6 +5,7 @@ import (
 	"fmt"
 	"io"
 	"net"
+	"strings"
 	"sync"
 	"sync/atomic"
 	"testing"
@@ -322,7 +323,18 @@ func c10custom(rep *vh.Report, seed uint64, idx int) {
 	}
 	// freeze the verdict inputs before closing
 	atomic.StoreInt32(&stop, 1)
-	wwg.Wait()
+	wdone := make(chan struct{})
+	go func() { wwg.Wait(); close(wdone) }()
+	select {
+	case <-wdone:
+	case <-time.After(8 * time.Second):
+		// the application keeps consuming events, yet its Write* calls never return and (see the counts) frame events have
+		// stopped: the node is wedged, whatever it was fed after that point is lost
+		rep.Violation("what=lost ep=custom", fmt.Sprintf("the node stopped working while the application was consuming events: Write* calls issued 8 s ago have not returned, %d of %d valid frames produced a frame event", delivered(), totalValid),
+			map[string]interface{}{"goroutines": strings.Join(libGoroutines(), "\n\n")})
+		go node.Close()
+		return
+	}
 	// what each channel had delivered before Close was called: that part must be a gap-free prefix;
 	// once the node is closing, events may be dropped (pushEvent selects on terminate), so what
 	// arrives afterwards only has to be in order, unique and rightly attributed
